@@ -131,6 +131,99 @@ def systematic(quick):
                     yield sx([6, ty, 2, [da, dc, [3, 1, 0]], [2]])
 
 
+def view_cases(ty, quick):
+    """containers whose SOURCE is a view of another container (op 7): the column-major interop
+    matrix over a transposed 2-d record tensor, the dimension-swapped tensor view, and detached
+    constants copies with relabelled indexes; every unary kind (allocating / assign), binary
+    kinds x modes on either side, matmul, map, from_iter(s) over them"""
+    k = lambda v: num(ty, v)
+    for (r, c) in ([(2, 3), (1, 2)] if quick else [(2, 3), (3, 2), (1, 2), (2, 2), (3, 1)]):
+        n = r * c
+        for va in (1, 0):
+            da = [0, 1, va, tshape(2, [r, c]), data(ty, n, 0)]
+            for kind in (0, 1):
+                view = [7, kind, 0]          # env 1: c x r matrix (kind 0) / tensor (kind 1)
+                tensor = kind == 1
+                osh = tshape(2, [c, r], [1, 0]) if tensor else mshape(c, r)
+                for code in UN_CODES:
+                    for assign in (0, 1):
+                        yield sx([6, ty, 2, [da, view, [1, assign, code, k(3), 1]], [2]])
+                for vb in (1, 0):
+                    db = [0, tensor, vb, osh, data(ty, n, 5)]     # env 2, same shape as the view
+                    for mode in range(4):
+                        for code in range(6):
+                            if mode == 0 and code > 1:
+                                continue
+                            yield sx([6, ty, 2, [da, view, db, [2, mode, code, 1, 2]], [3]])
+                            yield sx([6, ty, 2, [da, view, db, [2, mode, code, 2, 1]], [3]])
+                    # matmul: view (c x r) times (r x c), and the other way round
+                    dm = [0, tensor, vb, (tshape(2, [r, c]) if tensor else mshape(r, c)), data(ty, n, 7)]
+                    yield sx([6, ty, 2, [da, view, dm, [3, 1, 2]], [3]])
+                    yield sx([6, ty, 2, [da, view, dm, [3, 2, 1]], [3]])
+                yield sx([6, ty, 2, [da, view, [2, 1, 2, 1, 1]], [2]])
+                yield sx([6, ty, 2, [da, view, [3, 0, 1] if tensor else [7, kind, 0], [1, 0, 0, k(0), 1]], [3]])
+                for e in closures(ty):
+                    for mut in (0, 1):
+                        yield sx([6, ty, 2, [da, view, [4, mut, e, 1]], [2]])
+                yield sx([6, ty, 2, [da, view, [5, 0, mshape(r, c), 0, [0], 1]], [2]])
+                yield sx([6, ty, 2, [da, view, [5, 1, tshape(2, [n, 1]), 0, [3, 12, k(2), [0]], 1]], [2]])
+                if not tensor:
+                    yield sx([6, ty, 2, [da, view, [5, 0, mshape(r, c), 1, [0], 1]], [2]])
+                yield sx([6, ty, 2, [da, view, [6, [4, 2, [0], [0]], [3, 10, k(1), [0]], 1]], [2, 3]])
+                # a view of a view
+                if tensor:
+                    yield sx([6, ty, 2, [da, view, [7, 1, 1], [7, 0, 2], [1, 0, 1, k(0), 3]], [4]])
+    # detached constants copies (meaningless indexes) as the constant side of binary kinds and
+    # matrix products, tensors and matrices, either side
+    for tensor in (1, 0):
+        for (r, c) in [(2, 2), (2, 3)]:
+            n = r * c
+            sh = tshape(2, [r, c]) if tensor else mshape(r, c)
+            da = [0, tensor, 1, sh, data(ty, n, 0)]
+            db = [0, tensor, 1, sh, data(ty, n, 5)]
+            det = [7, 3, 1]       # env 2: constants with the numbers of env 1
+            for mode in range(4):
+                for code in range(6):
+                    if mode == 0 and code > 1:
+                        continue
+                    yield sx([6, ty, 2, [da, db, det, [2, mode, code, 0, 2]], [3]])
+                    yield sx([6, ty, 2, [da, db, det, [2, mode, code, 2, 0]], [3]])
+            for code in UN_CODES:
+                yield sx([6, ty, 2, [da, db, det, [1, code % 2, code, k(2), 2], [2, 0, 0, 0, 3]], [4]])
+            if r == c:
+                yield sx([6, ty, 2, [da, db, det, [3, 0, 2]], [3]])
+                yield sx([6, ty, 2, [da, db, det, [3, 2, 0]], [3]])
+            else:
+                dt = [0, tensor, 1, (tshape(2, [c, r]) if tensor else mshape(c, r)), data(ty, n, 3)]
+                yield sx([6, ty, 2, [da, dt, [7, 3, 1], [3, 0, 2]], [3]])
+                yield sx([6, ty, 2, [da, dt, [7, 3, 1], [3, 2, 0]], [3]])
+
+
+def float_cases():
+    """Rat programs that are ALSO run on f64 by the harness (declarations, unary kinds, binary
+    kinds, views): a constants x variables elementwise operation followed by an operation whose
+    local derivative is infinite / NaN at one element (sqrt, ln, pow, 1/x at 0)"""
+    for tensor in (1, 0):
+        sh = tshape(1, [3]) if tensor else mshape(1, 3)
+        D = 1 if tensor else 2
+        xs = [[3, 1], [-1, 1], [8, 1]]
+        for cs in ([[1, 1]] * 3, [[0, 1], [1, 1], [2, 1]], [[-3, 1], [1, 1], [1, 2]]):
+            for first_var in (1, 0):
+                d0 = [0, tensor, 1, sh, xs] if first_var else [0, tensor, 0, sh, cs]
+                d1 = [0, tensor, 0, sh, cs] if first_var else [0, tensor, 1, sh, xs]
+                extra = [0, tensor, 1, sh, [[5, 1], [0, 1], [2, 1]]]      # an unrelated input at the tape start
+                for mode in range(4):
+                    for code in (0, 1, 2, 3):
+                        if mode == 0 and code > 1:
+                            continue
+                        for (a, b) in ((0, 1), (1, 0)):
+                            for ucode, c in ((5, [0, 1]), (4, [0, 1]), (17, [1, 1]), (14, [1, 2]), (13, [0, 1])):
+                                for assign in (0, 1):
+                                    yield sx([6, 0, D, [d0, d1, [2, mode, code, a, b], [1, assign, ucode, c, 2]], [3]])
+                            yield sx([6, 0, D, [extra, d0, d1, [2, mode, code, a + 1, b + 1], [1, 0, 5, [0, 1], 3],
+                                               [2, 1, 3, 0, 4]], [5]])
+
+
 def mixed(ty):
     """closures producing consistent and MIXED histories over the elements of one container"""
     k = lambda v: num(ty, v)
@@ -352,6 +445,9 @@ def random_program(rng):
 def gen(tier, rng):
     quick = tier == "quick"
     yield from systematic(quick)
+    for ty in (0, 1):
+        yield from view_cases(ty, quick)
+    yield from float_cases()
     for _ in range(7000 if quick else 80000):
         yield random_program(rng)
 
@@ -364,7 +460,7 @@ def nontrivial(case, model_out):
 
 def distribution(lines):
     from tools.vlib import parse_sx
-    names = {0: "decl", 1: "unary", 2: "binary", 3: "matmul", 4: "map", 5: "from_iter", 6: "from_iters"}
+    names = {0: "decl", 1: "unary", 2: "binary", 3: "matmul", 4: "map", 5: "from_iter", 6: "from_iters", 7: "view"}
     kinds, lens, tys = {}, {}, {}
     mixed_streams = sum(1 for c in lines if "(5 (" in c or "(5 (0)" in c)
     for c in lines:
